@@ -71,3 +71,6 @@ def run_check(tier, seed):
     ev.cov['input_distribution'] = {'%s/%s' % k: v for k, v in sorted(hist.items())}
     ev.cov['samples'] = [S.case_json(c, obs.get(c['id'])) for c in cases[:3]]
     return finish(ev, PROP, findings, broken)
+
+def replay(path):
+    return S.replay(PROP, path)
